@@ -476,12 +476,33 @@ def r13_strip_inner_attrs(body):
     return _apply(s, res), log
 
 
+def r13_strip_macro_rules(body):
+    """R13 (part): drop leftover inner `macro_rules! NAME { … }` definitions.  rustc's expansion has already
+    expanded every use; the definitions that remain inside a fn body have no run-time meaning (and their
+    text would otherwise be counted as loops / rejected by Verus)."""
+    log = []
+    s = body
+    res = []
+    last = -1
+    for m in _code_find(s, re.compile(r'macro_rules\s*!\s*([A-Za-z_]\w*)\s*\{')):
+        if m.start() < last:
+            continue
+        bo = m.end() - 1
+        bc = match_delim(s, bo)
+        res.append((m.start(), bc + 1, ''))
+        last = bc + 1
+        log.append('R13: drop leftover macro_rules! %s' % m.group(1))
+    return _apply(s, res), log
+
+
 def apply_all(body, opts=None):
     opts = opts or {}
     log = []
     s = body
     _counter[0] = 0
     s, l = r13_strip_inner_attrs(s)
+    log += l
+    s, l = r13_strip_macro_rules(s)
     log += l
     s, l = r1_debug_asserts(s, opts.get('may_fail', ()))
     log += l
@@ -522,6 +543,15 @@ SELFTEST = [
     (r5_copied_iter,
      '{ let mut iter = bytes.iter().copied(); raw = iter.next(); }',
      ['let mut iter = bytes.iter();', 'raw = (match iter.next() { Some(__r) => Some(*__r), None => None });']),
+    (r13_strip_macro_rules,
+     '{ let mut i = s; macro_rules! bh_loop_2 { ($block : block) => { loop { $block; i += 1; if i >= e { break; } } }; } macro_rules! bh_curr { () => { c [i] } } loop { f(i); } }',
+     ['{ let mut i = s; loop { f(i); } }']),
+    (lambda b: r_for_loops(b),
+     '{ for ch in [ch; 1] { g(ch); continue; } }',
+     ['let mut __it1: usize = 0; while __it1 < 1 {let ch = ch; __it1 += 1; g(ch); continue; }']),
+    (lambda b: r_for_loops(b),
+     '{ for bh1 in &mut self.0.bh_context[self.0.bhidx_start..self.0.bhidx_end] { bh1.h_full.update_by_byte(ch); } }',
+     ['let mut __it1: usize = self.0.bhidx_start; let __end1: usize = self.0.bhidx_end; while __it1 < __end1 {let __it1k = __it1; __it1 += 1; self.0.bh_context[__it1k].h_full.update_by_byte(ch); }']),
 ]
 
 
